@@ -231,6 +231,9 @@ func main() {
 				orb.Polygon{{{0, 0}, {h, 0}, {h, h}, {0, h}, {0, 0}}, {{2, 2}, {2, 9}, {9, 9}, {9, 2}, {2, 2}}},
 				orb.MultiPolygon{{{{0, 0}, {0, 9}, {9, 9}, {0, 0}}}, {{{20, 20}, {29, 20}, {29, 29}, {20, 20}}, {{22, 21}, {28, 21}, {28, 27}, {22, 21}}}},
 				orb.Collection{orb.Polygon{{{0, 0}, {0, 9}, {9, 9}, {0, 0}}}, orb.MultiPolygon{{{{20, 20}, {29, 29}, {29, 20}, {20, 20}}}}},
+				// multi kinds with one member and with none: the kind is the caller's, not the encoder's
+				orb.MultiPoint{{3, 3}}, orb.MultiLineString{{{1, 1}, {2, 2}}}, orb.MultiPolygon{{{{0, 0}, {0, 9}, {9, 9}, {0, 0}}}},
+				orb.MultiPoint{}, orb.Collection{orb.MultiPoint{{4, 4}}},
 			}
 		}
 		{
